@@ -114,6 +114,10 @@ EXC_NAMES = {n for n in dir(builtins) if isinstance(getattr(builtins, n), type)
 LOG_NAMES = {'_LOGGER', 'logging', 'warnings'}
 
 
+class GenList(list):
+    """An eagerly evaluated generator / iterator: consumed from the front by next()."""
+
+
 class Executor:
     def __init__(self, repo, contracts=None, inline_depth=12):
         self.repo = repo
@@ -904,6 +908,12 @@ class Executor:
         fn_src = ast.unparse(n.func)
         root = fn_src.split('.')[0]
         if root in LOG_NAMES or fn_src == 'print':
+            # queries of the logging configuration are environment input: unconstrained fresh values (both outcomes explored)
+            leaf = fn_src.split('.')[-1]
+            if leaf in ('isEnabledFor', 'hasHandlers'):
+                return self.ctx.fresh('env_logging_' + leaf, 'bool')
+            if leaf == 'getEffectiveLevel':
+                return self.ctx.fresh('env_logging_level', 'int')
             return None
         if fn_src == 'globals' and not n.args:
             return ModuleGlobals(env.module)
@@ -1097,7 +1107,48 @@ class Executor:
             return math.inf
         return self.ctx.sqrt(x)
 
+    def _strip_eq_literal(self, n, env):
+        """`X.strip() == 'LIT'` (either order, == or !=) with X a side-effect-free expression whose value is a string with symbolic
+        characters: one formula (exists an offset: blanks, LIT, blanks) instead of a fork per stripped prefix/suffix length."""
+        if len(n.ops) != 1 or not isinstance(n.ops[0], (ast.Eq, ast.NotEq)):
+            return None
+        for a, b in ((n.left, n.comparators[0]), (n.comparators[0], n.left)):
+            if not (isinstance(a, ast.Call) and isinstance(a.func, ast.Attribute) and a.func.attr == 'strip' and not a.args
+                    and not a.keywords and isinstance(b, ast.Constant) and isinstance(b.value, str)):
+                continue
+            tgt = a.func.value
+            while isinstance(tgt, (ast.Attribute, ast.Subscript)):
+                if isinstance(tgt, ast.Subscript) and not isinstance(tgt.slice, (ast.Constant, ast.Slice)):
+                    return None
+                tgt = tgt.value
+            if not isinstance(tgt, ast.Name):
+                return None
+            v = self.eval(a.func.value, env)
+            if not isinstance(v, SStr) or v.is_concrete():
+                return None
+            from .builtins_model import _in_codes, WS
+            lit = [ord(c) for c in b.value]
+            chars = v.chars
+            if lit and (lit[0] in WS or lit[-1] in WS):
+                r = False
+            elif not lit:
+                r = And(*[_in_codes(c, WS) for c in chars])
+            else:
+                alts = []
+                for i in range(0, len(chars) - len(lit) + 1):
+                    alts.append(And(*([_in_codes(c, WS) for c in chars[:i]] +
+                                      [(c == k) if isinstance(c, int) else compare('==', c, k) for c, k in zip(chars[i:], lit)] +
+                                      [_in_codes(c, WS) for c in chars[i + len(lit):]])))
+                r = Or(*alts) if alts else False
+            if isinstance(n.ops[0], ast.NotEq):
+                r = Not(r) if isinstance(r, Sym) else (not r)
+            return (r,)
+        return None
+
     def ev_Compare(self, n, env):
+        sp = self._strip_eq_literal(n, env)
+        if sp is not None:
+            return sp[0]
         left = self.eval(n.left, env)
         result = True
         for op, rn in zip(n.ops, n.comparators):
@@ -1241,7 +1292,7 @@ class Executor:
         return out
 
     def ev_GeneratorExp(self, n, env):
-        return self.ev_ListComp(n, env)
+        return GenList(self.ev_ListComp(n, env))
 
     def ev_SetComp(self, n, env):
         out = []
